@@ -392,8 +392,11 @@ client variable in slot `d`). -/
 def opExportFfi (s : State) (srcs : List Nat) (d : Nat) : State × Out :=
   match handlesOf s srcs, s.slots[d]? with
   | some hs, some .empty =>
-    let o := s.owners.length
-    (holdAll (setSlot (pushOwner s { rc := 1, drops := 0, held := [] }) d (.ffi o)) o hs, .ok)
+    -- the buffers of one array: all of the same length (`u8` columns of a struct)
+    if hs.all (fun h => h.len == (hs.head?.map Handle.len).getD 0) then
+      let o := s.owners.length
+      (holdAll (setSlot (pushOwner s { rc := 1, drops := 0, held := [] }) d (.ffi o)) o hs, .ok)
+    else (s, .bad)
   | _, _ => (s, .bad)
 
 /-- one imported buffer per exported handle (`ImportedArrowArray::buffers`): a region whose
